@@ -32,7 +32,11 @@ RULE = ("C15's random resolver problems, post-processed so that one name N (the 
         "(verify_vdb=False, pmerge's default, and nodeps=True): every universe is also resolved after giving each installed "
         "package of N an unresolvable atom (c/gone) in one of the five dependency classes (cycling, IDEPEND included; an "
         "installed twin of the highest source version is added now and then): min_install must not merge N when an installed "
-        "package matches T, upgrade must not merge N when an installed package holds the highest version.  Non-trivial policy case: >=2 distinct candidate versions match T (or an installed and a source instance "
+        "package matches T, upgrade must not merge N when an installed package holds the highest version.  Built candidates "
+        "(default options, verify_vdb=True): single-target universes whose installed packages of N get the unresolvable atom in "
+        "DEPEND or BDEPEND (build-time classes are not walked for built packages); when the independent oracle says the "
+        "installed set as it stands is a valid cycle-free final set containing the installed match, min_install must not merge "
+        "N and upgrade must keep an installed highest version.  Non-trivial policy case: >=2 distinct candidate versions match T (or an installed and a source instance "
         "of H exist / a source version above the installed match exists); distinct = (problem, resolver kind, clause).")
 ASSUMPTIONS = [
     "'resolvable' is decided by an independent run of the resolver on a repository restricted to the candidate in question "
@@ -49,6 +53,9 @@ ASSUMPTIONS = [
     "counted, not judged (greedy search: providers chosen earlier are not revisited, installed packages are not downgraded "
     "to make room, self-blocking packages cannot be placed - the statement does not say how much search is owed)",
     "installed fixtures are built packages (built=True) like the packages of a real vdb",
+    "built-candidate clause: for the upgrade strategy only installed highest-version instances without runtime dependencies are "
+    "claimed usable (newest-first provider choices for their runtime atoms are never revisited by the greedy search); for "
+    "min_install the premise is the independent oracle's 'the installed set as it stands is a valid cycle-free final set'",
     "with verify_vdb=False / nodeps=True the dependencies recorded for installed packages are not examined, so an installed "
     "match of a target nobody else mentions is always usable: the reuse / installed-preferred clauses are unconditional there "
     "(a failing run is only judged for single-target problems)",
@@ -58,7 +65,8 @@ TIMEOUT = {"quick": 240, "thorough": 1800}
 MIN_EVALS = 400
 REQUIRED_COUNTERS = ("policy_upgrade_judged", "policy_min_install_judged", "determinism_pairs", "hashseed_child_compared",
                      "bruteforce_judged:shape", "bruteforce_compared:random",
-                     "unverified_min_install_judged", "unverified_upgrade_judged", "unverified_class:IDEPEND")
+                     "unverified_min_install_judged", "unverified_upgrade_judged", "unverified_class:IDEPEND",
+                     "built_reuse_min_install_judged", "built_reuse_upgrade_judged", "built_reuse_class:BDEPEND")
 
 K_BUILT_PRUNED = "built-candidate-pruned-by-build-deps"
 
@@ -131,11 +139,11 @@ def brief_ops(ops):
 
 
 def classify(w):
-    if w.get("kind") == "highest-resolvable-not-chosen":
+    if w.get("kind") == "highest-resolvable-not-chosen" or (w.get("kind") or "").startswith("built-"):
         cf = w.get("counterfactual") or {}
         # the resolver chooses H as soon as the installed (built) packages carry no DEPEND/BDEPEND: a built candidate
         # was discarded because of build-time atoms the resolver never walks for built packages
-        if cf.get("installed_build_deps_stripped") == "H chosen":
+        if cf.get("installed_build_deps_stripped") == "H chosen" and w.get("built_packages_build_classes_walked") == []:
             return K_BUILT_PRUNED
     return None
 
@@ -327,10 +335,77 @@ class Checker:
         cf["source_reduced_to_oracle_plan"] = "H chosen" if self.chose(reduced, r, name, target, hver) else r["status"]
         got = [[m["ver"], m["origin"]] for m in members_of(problem, full_up)
                if m["name"] == name and ref.atom_matches(target, m)] if full_up["status"] == "success" else []
+        walked = self.build_classes_walked_for_built(problem, "upgrade")
         ctx.violation("highest-resolvable-not-chosen", self.witness(
             problem, "upgrade", "highest-resolvable-not-chosen", name=name, target=gp.render_atom(target), family=family,
             highest=hver, oracle_plan=["%s-%s:%s" % tuple(x) for x in plan], status=full_up["status"], chosen=got,
-            ops=brief_ops(full_up["ops"]), counterfactual=cf))
+            ops=brief_ops(full_up["ops"]), counterfactual=cf, built_packages_build_classes_walked=walked))
+
+    def build_classes_walked_for_built(self, problem, kind):
+        """Observation for the classifier: DEPEND/BDEPEND atoms the resolver walked on behalf of an installed (built)
+        package in a traced re-run (merge_plan skips those classes for built packages unless process_built_depends)."""
+        r = hz.run_problem(problem, kind, self.limit, trace=True)
+        return sorted({"%s %s of %s" % (e["mode"], e["atom"], e["parent"]["cpv"]) for e in (r.get("trace") or [])
+                       if e["parent"] and e["parent"]["livefs"] and e["mode"] in ("depend", "bdepend")})[:6]
+
+    # -- built candidates with stale build-time dependencies (default options) -------------------------------
+    def built_reuse(self, problem, name, target, dep_class=None):
+        """`problem`: single target; installed packages of `name` carry an unresolvable DEPEND/BDEPEND atom."""
+        ctx = self.ctx
+        if len(problem["targets"]) != 1:
+            return
+        inst = [s for s in problem["installed"] if ref.atom_matches(target, s)]
+        if not inst:
+            return
+        best = inst[0]
+        for s in inst[1:]:
+            if pv.cmp_fullver(s["ver"], best["ver"]) > 0:
+                best = s
+        high = ref.highest_matching(problem, target)
+        hver = high[0][1]["ver"]
+        for kind in ("min_install", "upgrade"):
+            want = best["ver"] if kind == "min_install" else hver
+            if kind == "upgrade" and not any(o == "vdb" for o, _s in high):
+                continue
+            if kind == "upgrade" and any(c for s_ in inst if pv.cmp_fullver(s_["ver"], hver) == 0
+                                         for cls in exists.INSTALLED_CLASSES for c in s_["deps"].get(cls, ())):
+                # the upgrade strategy resolves the runtime atoms of the installed instance newest-first and never
+                # revisits such a choice; whether the instance is then still "resolvable" is the restricted-run
+                # clause's business - here only instances without runtime dependencies are claimed
+                ctx.count("built_reuse_upgrade_instance_has_runtime_deps_unclaimed")
+                continue
+            # independent premise: the installed set, untouched, is a valid cycle-free final set holding that version
+            sr = exists.Search(problem, target, want, order_classes=exists.ALL)
+            if sr.defect(frozenset()) is not None:
+                ctx.count("built_reuse_installed_set_not_valid_as_is")
+                continue
+            r = self.run(problem, kind)
+            if r["status"] in ("timeout", "crash"):
+                ctx.skip_unspecified("resolution crashed or did not finish (C15's clause)")
+                continue
+            ctx.evaluated()
+            ctx.count("built_reuse_%s_judged" % kind)
+            if dep_class:
+                ctx.count("built_reuse_class:" + dep_class)
+            ctx.nontrivial(json.dumps([problem, kind, "built-reuse"], sort_keys=True))
+            bad = r["status"] == "failure" or bool(merges_name(r, name))
+            if kind == "upgrade" and not bad:
+                bad = not any(m["origin"] == "vdb" and pv.cmp_fullver(m["ver"], hver) == 0
+                              for m in members_of(problem, r) if m["name"] == name and ref.atom_matches(target, m))
+            if bad:
+                rule = "built-%s-%s" % (kind, "fails" if r["status"] == "failure" else "does-not-keep-installed")
+                cf = {}
+                stripped = gp._copy(problem)
+                for s_ in stripped["installed"]:
+                    s_["deps"]["DEPEND"], s_["deps"]["BDEPEND"] = [], []
+                r2 = self.run(stripped, kind)
+                ok2 = r2["status"] == "success" and not merges_name(r2, name)
+                cf["installed_build_deps_stripped"] = "H chosen" if ok2 else r2["status"]
+                w = self.witness(problem, kind, rule, name=name, target=gp.render_atom(target), injected_class=dep_class,
+                                 installed=[s["ver"] for s in inst], highest=hver, status=r["status"],
+                                 ops=brief_ops(r["ops"]), counterfactual=cf,
+                                 built_packages_build_classes_walked=self.build_classes_walked_for_built(problem, kind))
+                ctx.violation(rule, w)
 
     # -- installed database not verified (pmerge's default) ------------------------------------------------
     def unverified(self, problem, name, target, dep_class=None):
@@ -492,6 +567,10 @@ def run(ctx):
         if v is not None:
             nvar += 1
             ck.unverified(v, name, target, cls)
+            bcls = ("DEPEND", "BDEPEND")[nvar % 2]
+            vb = reuse_variant(ctx.rng, dict(problem, targets=[target]), name, target, bcls)
+            if vb is not None:
+                ck.built_reuse(vb, name, target, bcls)
         if ctx.out_of_time(70):
             ctx.note("random universes stopped early by the soft deadline after %d problems" % (i + 1))
             break
@@ -529,7 +608,10 @@ def replay(ctx, w):
     logging.disable(logging.WARNING)
     ck = Checker(ctx)
     problem = w["problem"]
-    if w.get("name") and (w.get("rule") or "").startswith("unverified-vdb"):
+    if w.get("name") and (w.get("rule") or "").startswith("built-"):
+        t = [x for x in problem["targets"] if x["name"] == w["name"]][0]
+        ck.built_reuse(problem, w["name"], t, w.get("injected_class"))
+    elif w.get("name") and (w.get("rule") or "").startswith("unverified-vdb"):
         t = [x for x in problem["targets"] if x["name"] == w["name"]][0]
         ck.unverified(problem, w["name"], t, w.get("injected_class"))
     elif w.get("name"):
